@@ -65,6 +65,22 @@ def op_to_mop(cirq, op, axis_of, keyid):
         return (f'(MMeasure {keyid(str(gate.key))}%nat {axl} [{"; ".join("true" if b else "false" for b in inv)}] [{"; ".join(cms)}])')
     if isinstance(gate, cirq.ResetChannel) and conds is None:
         return f'(MReset {ax[0]}%nat)'
+    if isinstance(gate, cirq.PauliMeasurementGate):
+        if conds is not None:
+            raise Unsupported('controlled measurement')
+        # documented meaning: measures the observable c*P (c = +-1); records 0 for eigenvalue +1 and 1 for eigenvalue -1 and leaves
+        # the projection (I +- cP)/2 of the state.  Built from the Pauli letters here, not from the gate's decomposition.
+        obs = gate.observable()
+        letters = {0: np.eye(2), 1: np.array([[0, 1], [1, 0]]), 2: np.array([[0, -1j], [1j, 0]]), 3: np.diag([1, -1])}
+        P = np.array([[1.0 + 0j]])
+        for m in obs.pauli_mask:
+            P = np.kron(P, letters[int(m)])
+        cf = complex(obs.coefficient)
+        if abs(cf.imag) > 1e-12 or abs(abs(cf.real) - 1) > 1e-12:
+            raise Unsupported('pauli measurement with a non-unit coefficient')
+        P = cf.real * P
+        I = np.eye(P.shape[0])
+        return f'(MKrausKeyed {keyid(str(gate.key))}%nat [{rmat((I + P) / 2)}; {rmat((I - P) / 2)}] {gates.nlist(shape)} {axl})'
     if cirq.has_unitary(op):
         g = f'({mat_term(cirq.unitary(op), shape)}, {axl})'
         if conds is not None:
@@ -102,6 +118,8 @@ def circuit_to_mops(cirq, circuit, qubit_order, keyid=None):
             meas.append((str(op.gate.key), len(op.qubits)))
         elif isinstance(op.gate, (cirq.KrausChannel, cirq.MixedUnitaryChannel)) and cirq.is_measurement(op):
             meas.append((next(iter(cirq.measurement_key_names(op))), 1))
+        elif isinstance(op.gate, cirq.PauliMeasurementGate):
+            meas.append((str(op.gate.key), 1))
     return '[' + ';\n '.join(terms) + ']', meas, keyid
 
 
